@@ -14,6 +14,7 @@ import itertools
 from .. import muts as MU
 from .. import universe as U
 from ..acc import Acc
+from .. import argforms as AF
 from ..ref import subun as R
 
 ID = "C14"
@@ -174,16 +175,20 @@ def do_subset(ctx, nodes, ro, ru, via, acc, record=False):
     case = dict(ctx.base, op="subset", nodes=nodes, ro=ro, ru=ru, via=via, record=record)
     nontrivial = ctx.has_edges and nodes != list(range(ctx.m.N))
     acc.ev(1, nontrivial)
+    # the node list is passed in one of the forms a caller may use (list, tuple, strided /
+    # reversed numpy views, int64 ...), chosen deterministically from the list itself
+    form, arg = AF.pick(nodes, salt=2 * ro + ru)
+    acc.count("argform_" + form)
     try:
         if via == "ts":
-            out = ctx.ts.subset(nodes, record_provenance=record, reorder_populations=ro,
+            out = ctx.ts.subset(arg, record_provenance=record, reorder_populations=ro,
                                 remove_unreferenced=ru).dump_tables()
         else:
             out = ctx.tc.copy()
-            out.subset(nodes, record_provenance=record, reorder_populations=ro,
+            out.subset(arg, record_provenance=record, reorder_populations=ro,
                        remove_unreferenced=ru)
     except Exception as e:  # noqa
-        acc.fail("subset:raises", f"subset({nodes}, ro={ro}, ru={ru}) via {via} raised {e!r}", case)
+        acc.fail("subset:raises", f"subset({nodes} as {form}, ro={ro}, ru={ru}) via {via} raised {e!r}", case)
         return
     if via != "ts":
         try:
@@ -385,13 +390,15 @@ def do_union(ctx, cover, xo, yo, ro, add_pop, check, via, acc, record=False):
             return "union:refused_equal_shared"
         return "union:raises" if stage == "union" else "union:invalid_result"
 
+    form, marg = AF.pick(mapping, salt=2 * check + add_pop)
+    acc.count("argform_" + form)
     try:
         if via == "ts":
-            out = tsA.union(tsB, mapping, check_shared_equality=check, add_populations=add_pop,
+            out = tsA.union(tsB, marg, check_shared_equality=check, add_populations=add_pop,
                             record_provenance=record).dump_tables()
         else:
             out = tA.copy()
-            out.union(tB, mapping, check_shared_equality=check, add_populations=add_pop,
+            out.union(tB, marg, check_shared_equality=check, add_populations=add_pop,
                       record_provenance=record)
     except Exception as e:  # noqa
         key = classify(e, "union")
